@@ -1,3 +1,507 @@
 import Proofs.KDefs
+import Proofs.Lemmas.Calc
+import Proofs.Lemmas.C02
+/-! C02 – signed area.
+
+    "For every closed path the reported area equals the signed area it encloses (the integral of the winding
+    number over the plane), positive for contours that turn from +x towards +y.  It is additive over sub-paths,
+    negated by reversing sub-paths, multiplied by the determinant under an affine map, and unchanged when
+    segments are split, degree-raised or re-expressed (line as quadratic/cubic)."
+
+    What is proved (about the model functions `Line/QuadBez/CubicBez/PathSeg.signed_area` of `Kurbo/Kernel.lean`
+    and `segs`, `pathArea` of `Kurbo/Path.lean`, exactly as they are):
+
+    A. (ℝ) each of the three closed forms is the Green line integral `½∫₀¹ (x·y′ − y·x′) dt` of the segment's own
+       `eval`, with `y′, x′` the segment's own `deriv` (for `Line`, which has no `deriv` in the kernel, the constant
+       velocity `p1 − p0`, shown to be the derivative of `Line.eval` in `line_eval_hasDerivAt`).
+    B. (any lawful scalar, polynomial identities) reversal negates; `raise`, `to_cubic`, line-as-quadratic keep the
+       area; the area is additive over any split of the parameter range (no ordering of `t0 t1 t2` assumed);
+       affine law for a single (open) segment with the explicit end-point correction that telescopes.
+    C. (any lawful scalar, path level) `pathArea` is the sum of the segment areas; additivity over sub-paths
+       (`c02_segs_append`, `area_append`, including propagation of the iterator's panic); for chains of segments:
+       determinant law with end-point correction, determinant law for closed chains, negation under reversal;
+       for element lists made of closed sub-paths (`ClosedPath`: each sub-path is `MoveTo p, body…, ClosePath` or
+       `MoveTo p, body…` with the body returning to `p`; body = `LineTo/QuadTo/CurveTo` only):
+       `pathArea (A·els) = det A · pathArea els` for EVERY affine `A` (also singular ones, where the closing line
+       of `ClosePath` may disappear in the image), and invariance under translation.
+       Element-level reversal: for a SINGLE sub-path (`MoveTo p, body…, ClosePath` or `MoveTo p, body…`, open or
+       not) `reverseSubpaths` does not panic, the segments of its result are the reversed chain (for the closed
+       form: rotated so that the reversed closing line comes last), and `pathArea` is negated.
+       Orientation: the area of a triangle path is `½·(b−a)×(c−a)`, positive when it turns from +x towards +y.
+
+    What is NOT proved:
+    * "= ∬ winding number dA" (Green's theorem proper for piecewise polynomial loops).  Part A identifies the closed
+      forms with the line integral `½∮(x dy − y dx)`; that this line integral equals the integral of the winding
+      number over the plane is cited mathematics and is not formalised here.
+    * Element-level reversal (`reverseSubpaths`) is proved for element lists consisting of ONE sub-path only; for
+      lists with several sub-paths only the chain-level statement `chain_area_reverse` (and `area_append`) is
+      available – no theorem here describes `reverseSubpaths` across `MoveTo` boundaries (two `Rat` examples at the
+      end of the file evaluate it on a two-sub-path list).
+    * The determinant law at path level is for lists of *closed* sub-paths as described above; for open sub-paths
+      the correction term of `chain_area_affine` remains (it is not zero in general).
+    * Everything is about exact (lawful) scalars; nothing is claimed about `Float` rounding, except the purely
+      structural `c02_segs_append`, `chain_reverse_isChain`, which hold for every `Scalar`.
+    Helper lemmas: `Proofs/Lemmas/C02.lean`. -/
+set_option linter.unusedSectionVars false
+
+/-! ## A. Green integral (ℝ) -/
 namespace Kurbo
+section real
+variable [Scalar ℝ] [LawfulScalar ℝ]
+
+theorem cubic_signedArea_eq_green (c : CubicBez ℝ) :
+    c.signed_area = (1 / 2) * ∫ t in (0:ℝ)..1,
+      ((c.eval t).x * (c.deriv.eval t).y - (c.eval t).y * (c.deriv.eval t).x) := by
+  rw [integral_green_of_poly _
+    c.p0.x (3 * (c.p1.x - c.p0.x)) (3 * (c.p2.x - 2 * c.p1.x + c.p0.x)) (c.p3.x - 3 * c.p2.x + 3 * c.p1.x - c.p0.x)
+    c.p0.y (3 * (c.p1.y - c.p0.y)) (3 * (c.p2.y - 2 * c.p1.y + c.p0.y)) (c.p3.y - 3 * c.p2.y + 3 * c.p1.y - c.p0.y)
+    (fun t => by kring)]
+  kring
+
+theorem quad_signedArea_eq_green (q : QuadBez ℝ) :
+    q.signed_area = (1 / 2) * ∫ t in (0:ℝ)..1,
+      ((q.eval t).x * (q.deriv.eval t).y - (q.eval t).y * (q.deriv.eval t).x) := by
+  rw [integral_green_of_poly _
+    q.p0.x (2 * (q.p1.x - q.p0.x)) (q.p2.x - 2 * q.p1.x + q.p0.x) 0
+    q.p0.y (2 * (q.p1.y - q.p0.y)) (q.p2.y - 2 * q.p1.y + q.p0.y) 0
+    (fun t => by kring)]
+  kring
+
+/-- `Line` has no `deriv` in the kernel; its velocity is the constant `p1 − p0` (next theorem) -/
+theorem line_signedArea_eq_green (l : Line ℝ) :
+    l.signed_area = (1 / 2) * ∫ t in (0:ℝ)..1,
+      ((l.eval t).x * (l.p1.y - l.p0.y) - (l.eval t).y * (l.p1.x - l.p0.x)) := by
+  rw [integral_green_of_poly _
+    l.p0.x (l.p1.x - l.p0.x) 0 0
+    l.p0.y (l.p1.y - l.p0.y) 0 0
+    (fun t => by kring)]
+  kring
+
+theorem line_eval_hasDerivAt (l : Line ℝ) (t : ℝ) :
+    HasDerivAt (fun t => (l.eval t).x) (l.p1.x - l.p0.x) t ∧
+    HasDerivAt (fun t => (l.eval t).y) (l.p1.y - l.p0.y) t := by
+  constructor
+  · have h := hasDerivAt_poly3 l.p0.x (l.p1.x - l.p0.x) 0 0 t
+    have e1 : (fun t => (l.eval t).x) = fun x : ℝ => l.p0.x + (l.p1.x - l.p0.x) * x + 0 * x ^ 2 + 0 * x ^ 3 := by
+      funext x; kring
+    rw [e1]; convert h using 1; ring
+  · have h := hasDerivAt_poly3 l.p0.y (l.p1.y - l.p0.y) 0 0 t
+    have e1 : (fun t => (l.eval t).y) = fun x : ℝ => l.p0.y + (l.p1.y - l.p0.y) * x + 0 * x ^ 2 + 0 * x ^ 3 := by
+      funext x; kring
+    rw [e1]; convert h using 1; ring
+
+end real
+end Kurbo
+
+/-! ## B. Segment level (any lawful scalar) -/
+namespace Kurbo
+variable {K : Type} [Field K] [LinearOrder K] [IsStrictOrderedRing K] [FloorRing K] [Scalar K] [LawfulScalar K]
+
+/-! ### the closed forms as plain polynomials (what the model computes) -/
+
+theorem line_signedArea_formula (l : Line K) :
+    l.signed_area = (l.p0.x * l.p1.y - l.p0.y * l.p1.x) / 2 := by kring
+
+/-! ### reversal negates -/
+
+theorem signedArea_reverse (s : PathSeg K) : s.reverse.signed_area = - s.signed_area := by
+  cases s with
+  | Line l => cases l; simp only [PathSeg.reverse, PathSeg.signed_area]; kring
+  | Quad q => simp only [PathSeg.reverse, PathSeg.signed_area]; kring
+  | Cubic c => simp only [PathSeg.reverse, PathSeg.signed_area]; kring
+
+theorem line_reversed_signedArea (l : Line K) : l.reversed.signed_area = - l.signed_area := by kring
+
+/-! ### degree raising and re-expression keep the area -/
+
+theorem signedArea_raise (q : QuadBez K) : q.raise.signed_area = q.signed_area := by kring
+
+theorem signedArea_line_as_cubic (l : Line K) : (PathSeg.Line l).to_cubic.signed_area = l.signed_area := by
+  cases l; simp only [PathSeg.to_cubic]; kring
+
+/-- `to_cubic` keeps the area of every kind of segment -/
+theorem signedArea_toCubic (s : PathSeg K) : s.to_cubic.signed_area = s.signed_area := by
+  cases s with
+  | Line l => exact signedArea_line_as_cubic l
+  | Quad q => exact signedArea_raise q
+  | Cubic c => rfl
+
+/-- a line written as the quadratic with the midpoint as control point -/
+theorem signedArea_line_as_quad (l : Line K) :
+    (QuadBez.mk l.p0 l.midpoint l.p1).signed_area = l.signed_area := by kring
+
+/-- … and with ANY control point on the (infinite) line, `p0 + s·(p1 − p0)`, also outside `[0,1]` -/
+theorem signedArea_line_as_quad_any (l : Line K) (s : K) :
+    (QuadBez.mk l.p0 (l.eval s) l.p1).signed_area = l.signed_area := by kring
+
+/-- a line written as a cubic with ANY two control points on the line -/
+theorem signedArea_line_as_cubic_any (l : Line K) (s u : K) :
+    (CubicBez.mk l.p0 (l.eval s) (l.eval u) l.p1).signed_area = l.signed_area := by kring
+
+/-! ### splitting the parameter range: additive, no correction term, no ordering assumption -/
+
+theorem line_signedArea_split (l : Line K) (t0 t1 t2 : K) :
+    (l.subsegment ⟨t0, t1⟩).signed_area + (l.subsegment ⟨t1, t2⟩).signed_area
+      = (l.subsegment ⟨t0, t2⟩).signed_area := by kring
+theorem quad_signedArea_split (q : QuadBez K) (t0 t1 t2 : K) :
+    (q.subsegment ⟨t0, t1⟩).signed_area + (q.subsegment ⟨t1, t2⟩).signed_area
+      = (q.subsegment ⟨t0, t2⟩).signed_area := by kring
+theorem cubic_signedArea_split (c : CubicBez K) (t0 t1 t2 : K) :
+    (c.subsegment ⟨t0, t1⟩).signed_area + (c.subsegment ⟨t1, t2⟩).signed_area
+      = (c.subsegment ⟨t0, t2⟩).signed_area := by kring
+
+theorem signedArea_split (s : PathSeg K) (t0 t1 t2 : K) :
+    (s.subsegment ⟨t0, t1⟩).signed_area + (s.subsegment ⟨t1, t2⟩).signed_area
+      = (s.subsegment ⟨t0, t2⟩).signed_area := by
+  cases s with
+  | Line l => exact line_signedArea_split l t0 t1 t2
+  | Quad q => exact quad_signedArea_split q t0 t1 t2
+  | Cubic c => exact cubic_signedArea_split c t0 t1 t2
+
+/-- the whole range gives the whole area -/
+theorem signedArea_subsegment_full (s : PathSeg K) : (s.subsegment ⟨0, 1⟩).signed_area = s.signed_area := by
+  cases s with
+  | Line l => simp only [PathSeg.subsegment, PathSeg.signed_area]; kring
+  | Quad q => simp only [PathSeg.subsegment, PathSeg.signed_area]; kring
+  | Cubic c => simp only [PathSeg.subsegment, PathSeg.signed_area]; kring
+
+/-- splitting a segment at any `t` (also outside `[0,1]`) into its two parts -/
+theorem signedArea_split_at (s : PathSeg K) (t : K) :
+    (s.subsegment ⟨0, t⟩).signed_area + (s.subsegment ⟨t, 1⟩).signed_area = s.signed_area := by
+  rw [signedArea_split, signedArea_subsegment_full]
+
+/-- `subdivide` (split at one half) keeps the total area -/
+theorem cubic_signedArea_subdivide (c : CubicBez K) :
+    c.subdivide.1.signed_area + c.subdivide.2.signed_area = c.signed_area := by kring
+theorem quad_signedArea_subdivide (q : QuadBez K) :
+    q.subdivide.1.signed_area + q.subdivide.2.signed_area = q.signed_area := by kring
+
+/-! ### affine maps: determinant times the area, plus a term that depends only on the end points -/
+
+/-- With `A = [a b c d e f]` (`x′ = a·x + c·y + e`, `y′ = b·x + d·y + f`):
+    `area(A·s) = det A · area s + ½·(e·Δy′ − f·Δx′)` where `Δ′ = A·end − A·start`.
+    The correction telescopes along a chain and vanishes on a closed one (part C). -/
+theorem signedArea_affine (A : Affine K) (s : PathSeg K) :
+    (A * s).signed_area = A.determinant * s.signed_area
+      + (1 / 2) * (A.c4 * ((A * s.end).y - (A * s.start).y) - A.c5 * ((A * s.end).x - (A * s.start).x)) :=
+  pathSeg_signedArea_affine A s
+
+theorem line_signedArea_affine (A : Affine K) (l : Line K) :
+    (A * l).signed_area = A.determinant * l.signed_area
+      + (1 / 2) * (A.c4 * ((A * l.p1).y - (A * l.p0).y) - A.c5 * ((A * l.p1).x - (A * l.p0).x)) := by aff_ring
+theorem quad_signedArea_affine (A : Affine K) (q : QuadBez K) :
+    (A * q).signed_area = A.determinant * q.signed_area
+      + (1 / 2) * (A.c4 * ((A * q.p2).y - (A * q.p0).y) - A.c5 * ((A * q.p2).x - (A * q.p0).x)) := by aff_ring
+theorem cubic_signedArea_affine (A : Affine K) (c : CubicBez K) :
+    (A * c).signed_area = A.determinant * c.signed_area
+      + (1 / 2) * (A.c4 * ((A * c.p3).y - (A * c.p0).y) - A.c5 * ((A * c.p3).x - (A * c.p0).x)) := by aff_ring
+
+/-- the same correction in terms of the original end points: `½ · (translation × linear part (end − start))` -/
+theorem signedArea_affine' (A : Affine K) (s : PathSeg K) :
+    (A * s).signed_area = A.determinant * s.signed_area
+      + (1 / 2) * (A.c4 * (A.c1 * (s.end.x - s.start.x) + A.c3 * (s.end.y - s.start.y))
+                 - A.c5 * (A.c0 * (s.end.x - s.start.x) + A.c2 * (s.end.y - s.start.y))) := by
+  cases s <;> aff_ring
+
+/-- linear maps (no translation): exactly the determinant, for every single segment -/
+theorem signedArea_linear (A : Affine K) (h4 : A.c4 = 0) (h5 : A.c5 = 0) (s : PathSeg K) :
+    (A * s).signed_area = A.determinant * s.signed_area := by
+  rw [signedArea_affine, h4, h5]; ring
+
+/-- a segment that starts and ends in the same point (a closed chain of one) : exactly the determinant -/
+theorem signedArea_affine_loop (A : Affine K) (s : PathSeg K) (h : s.end = s.start) :
+    (A * s).signed_area = A.determinant * s.signed_area := by
+  rw [signedArea_affine, h]; ring
+
+/-- translation of a single (open) segment -/
+theorem signedArea_translate (v : Vec2 K) (s : PathSeg K) :
+    (Affine.translate v * s).signed_area
+      = s.signed_area + (1 / 2) * (v.x * (s.end.y - s.start.y) - v.y * (s.end.x - s.start.x)) := by
+  cases s <;> aff_ring
+
+theorem determinant_mul (A B : Affine K) : (A * B).determinant = A.determinant * B.determinant := by aff_ring
+theorem determinant_translate (v : Vec2 K) : (Affine.translate v).determinant = 1 := by aff_ring
+
+end Kurbo
+
+/-! ## C. Path level (any lawful scalar) -/
+namespace Kurbo
+variable {K : Type} [Field K] [LinearOrder K] [IsStrictOrderedRing K] [FloorRing K] [Scalar K] [LawfulScalar K]
+
+/-- `Segments::area` folds from `0` on the left; in a field that is the sum of the segment areas -/
+theorem pathArea_eq_sum (els : List (PathEl K)) :
+    pathArea els = (segs els).map (fun ss => (ss.map PathSeg.signed_area).sum) :=
+  pathArea_eq_areaSum els
+
+/-! ### additivity over sub-paths -/
+
+/-- a `MoveTo` resets the iterator: the segments of `els₁ ++ MoveTo p :: r` are those of `els₁` followed by those
+    of `MoveTo p :: r`; the whole panics iff one of the parts does (holds for every `Scalar`, also `Float`) -/
+theorem c02_segs_append {K' : Type} [Scalar K'] (els₁ r : List (PathEl K')) (p : Point K') :
+    segs (els₁ ++ .MoveTo p :: r)
+      = (segs els₁).bind fun ss₁ => (segs (.MoveTo p :: r)).map (ss₁ ++ ·) := by
+  simp only [segs_eq_segsFrom]
+  exact segsFrom_append_bind (fun st => segsFrom_moveTo_any st p r) els₁ none
+
+theorem area_append (els₁ r : List (PathEl K)) (p : Point K) :
+    pathArea (els₁ ++ .MoveTo p :: r)
+      = (pathArea els₁).bind fun a₁ => (pathArea (.MoveTo p :: r)).map (a₁ + ·) := by
+  simp only [pathArea_eq_areaSum, c02_segs_append]
+  cases segs els₁ with
+  | none => rfl
+  | some ss₁ =>
+    cases segs (.MoveTo p :: r) with
+    | none => rfl
+    | some ss₂ => simp [areaSum_append]
+
+/-- the form with both parts well-formed -/
+theorem area_append_some (els₁ els₂ : List (PathEl K)) (p : Point K) (r : List (PathEl K))
+    (h : els₂ = .MoveTo p :: r) (ss₁ ss₂ : List (PathSeg K)) (a₁ a₂ : K)
+    (h1 : segs els₁ = some ss₁) (h2 : segs els₂ = some ss₂)
+    (ha1 : pathArea els₁ = some a₁) (ha2 : pathArea els₂ = some a₂) :
+    segs (els₁ ++ els₂) = some (ss₁ ++ ss₂) ∧ pathArea (els₁ ++ els₂) = some (a₁ + a₂) := by
+  subst h
+  constructor
+  · rw [c02_segs_append, h1, h2]; rfl
+  · rw [area_append, ha1, ha2]; rfl
+
+/-! ### chains of segments -/
+
+/-- determinant law along a chain from `p` to `q`: the single-segment corrections telescope -/
+theorem chain_area_affine (A : Affine K) (p q : Point K) (ss : List (PathSeg K)) (h : SegChain p ss q) :
+    ((ss.map (fun s : PathSeg K => A * s)).map PathSeg.signed_area).sum
+      = A.determinant * (ss.map PathSeg.signed_area).sum
+        + (1 / 2) * (A.c4 * ((A * q).y - (A * p).y) - A.c5 * ((A * q).x - (A * p).x)) :=
+  chain_areaSum_affine A h
+
+/-- closed chain: exactly the determinant (any `A`, singular or not) -/
+theorem chain_area_affine_closed (A : Affine K) (p : Point K) (ss : List (PathSeg K)) (h : SegChain p ss p) :
+    ((ss.map (fun s : PathSeg K => A * s)).map PathSeg.signed_area).sum
+      = A.determinant * (ss.map PathSeg.signed_area).sum := by
+  rw [chain_area_affine A p p ss h]; ring
+
+/-- translating a closed chain does not change its area -/
+theorem chain_area_translate_closed (v : Vec2 K) (p : Point K) (ss : List (PathSeg K)) (h : SegChain p ss p) :
+    ((ss.map (fun s : PathSeg K => Affine.translate v * s)).map PathSeg.signed_area).sum
+      = (ss.map PathSeg.signed_area).sum := by
+  rw [chain_area_affine_closed _ p ss h, determinant_translate, one_mul]
+
+/-- reversing a chain (reverse the order, reverse each segment) gives a chain from `q` back to `p` with the
+    negated area.  (The area statement needs no chain hypothesis.) -/
+theorem chain_area_reverse (ss : List (PathSeg K)) :
+    ((ss.reverse.map PathSeg.reverse).map PathSeg.signed_area).sum = - (ss.map PathSeg.signed_area).sum :=
+  areaSum_reverse ss signedArea_reverse
+
+theorem chain_reverse_isChain {K' : Type} [Scalar K'] (p q : Point K') (ss : List (PathSeg K'))
+    (h : SegChain p ss q) : SegChain q (ss.reverse.map PathSeg.reverse) p :=
+  segChain_reverse h
+
+/-! ### closed sub-paths -/
+
+/-- the segments of one explicitly closed sub-path: the body's segments and, when the body does not end at the
+    start point, the closing line; they form a closed chain from `p` to `p` -/
+theorem segs_closed_subpath (p : Point K) (body : List (PathEl K)) (hb : IsBody body) :
+    segs (.MoveTo p :: body ++ [PathEl.ClosePath])
+        = some (bodySegs p body ++ (if bodyEnd p body = p then [] else [.Line ⟨bodyEnd p body, p⟩])) ∧
+    SegChain p (bodySegs p body ++ (if bodyEnd p body = p then [] else [.Line ⟨bodyEnd p body, p⟩])) p := by
+  have e : (if bodyEnd p body = p then [] else [PathSeg.Line ⟨bodyEnd p body, p⟩])
+      = closeSegs (bodyEnd p body) p := by
+    unfold closeSegs
+    by_cases h : bodyEnd p body = p
+    · rw [if_pos h, if_pos ((c02_peq_iff _ _).mpr h)]
+    · rw [if_neg h, if_neg (fun h' => h ((c02_peq_iff _ _).mp h'))]
+  rw [e, segs_eq_segsFrom, segsFrom_closed_subpath none p body hb]
+  exact ⟨rfl, segChain_append (segChain_bodySegs body p hb) (segChain_closeSegs _ _)⟩
+
+/-- one closed sub-path under ANY affine map: the area is multiplied by the determinant -/
+theorem area_affine_closed (A : Affine K) (p : Point K) (body : List (PathEl K)) (hb : IsBody body) :
+    ∃ a : K, pathArea (.MoveTo p :: body ++ [PathEl.ClosePath]) = some a ∧
+      pathArea ((PathEl.MoveTo p :: body ++ [PathEl.ClosePath]).map (fun e : PathEl K => A * e))
+        = some (A.determinant * a) := by
+  refine ⟨areaSum (bodySegs p body ++ closeSegs (bodyEnd p body) p), ?_, ?_⟩
+  · rw [pathArea_eq_areaSum, segs_eq_segsFrom, segsFrom_closed_subpath none p body hb]; rfl
+  · have hm : (PathEl.MoveTo p :: body ++ [PathEl.ClosePath]).map (fun e : PathEl K => A * e)
+        = PathEl.MoveTo (A * p) :: body.map (fun e : PathEl K => A * e) ++ [PathEl.ClosePath] := by
+      simp only [List.map_cons, List.map_append, List.map_nil, List.cons_append]; rfl
+    rw [hm, pathArea_eq_areaSum, segs_eq_segsFrom, segsFrom_closed_subpath none _ _ (isBody_map A hb),
+      bodySegs_map A body p hb, bodyEnd_map A body p hb]
+    simp only [Option.map_some, Option.some.injEq]
+    rw [areaSum_append, areaSum_closeSegs_map, ← areaSum_append, ← List.map_append]
+    have hc : SegChain p (bodySegs p body ++ closeSegs (bodyEnd p body) p) p :=
+      segChain_append (segChain_bodySegs body p hb) (segChain_closeSegs _ _)
+    rw [chain_areaSum_affine A hc, affCorr_self, add_zero]
+
+/-- any list of closed sub-paths (`ClosedPath`, see `Proofs/Lemmas/C02.lean`: explicitly closed by `ClosePath`, or
+    returning to the start point without it) under ANY affine map: the iterator does not panic on either path and
+    the area is multiplied by the determinant -/
+theorem area_affine_closedPath (A : Affine K) (els : List (PathEl K)) (h : ClosedPath els) :
+    ∃ a : K, pathArea els = some a ∧
+      pathArea (els.map (fun e : PathEl K => A * e)) = some (A.determinant * a) := by
+  -- statement strengthened by `ClosedPath` of the image, so that `segs` of a concatenation splits
+  suffices hs : ClosedPath (els.map (fun e : PathEl K => A * e)) ∧ ∃ a : K, pathArea els = some a ∧
+      pathArea (els.map (fun e : PathEl K => A * e)) = some (A.determinant * a) from hs.2
+  induction h with
+  | nil => exact ⟨ClosedPath.nil, 0, by simp [pathArea_eq_areaSum, segs_eq_segsFrom, segsFrom, areaSum], by
+      simp [pathArea_eq_areaSum, segs_eq_segsFrom, segsFrom, areaSum]⟩
+  | close p body rest hb hrest ih =>
+    obtain ⟨hcl, a, ha, hAa⟩ := ih
+    have hm : ((PathEl.MoveTo p :: body ++ [PathEl.ClosePath]) ++ rest).map (fun e : PathEl K => A * e)
+        = (PathEl.MoveTo p :: body ++ [PathEl.ClosePath]).map (fun e : PathEl K => A * e)
+          ++ rest.map (fun e : PathEl K => A * e) := List.map_append
+    have hm1 : (PathEl.MoveTo p :: body ++ [PathEl.ClosePath]).map (fun e : PathEl K => A * e)
+        = (PathEl.MoveTo (A * p) :: body.map (fun e : PathEl K => A * e) ++ [PathEl.ClosePath]) := by
+      simp only [List.map_cons, List.map_append, List.map_nil, List.cons_append]; rfl
+    obtain ⟨a1, ha1, hAa1⟩ := area_affine_closed A p body hb
+    refine ⟨?_, a1 + a, pathArea_append_some hrest.state_indep ha1 ha, ?_⟩
+    · rw [hm, hm1]; exact ClosedPath.close _ _ _ (isBody_map A hb) hcl
+    · rw [hm, pathArea_append_some hcl.state_indep hAa1 hAa]; congr 1; ring
+  | implicit p body rest hb hend hrest ih =>
+    obtain ⟨hcl, a, ha, hAa⟩ := ih
+    have hm : ((PathEl.MoveTo p :: body) ++ rest).map (fun e : PathEl K => A * e)
+        = (PathEl.MoveTo p :: body).map (fun e : PathEl K => A * e)
+          ++ rest.map (fun e : PathEl K => A * e) := List.map_append
+    have hm1 : (PathEl.MoveTo p :: body).map (fun e : PathEl K => A * e)
+        = (PathEl.MoveTo (A * p) :: body.map (fun e : PathEl K => A * e)) := by
+      simp only [List.map_cons]; rfl
+    have hend' : bodyEnd (A * p) (body.map (fun e : PathEl K => A * e)) = A * p := by
+      rw [bodyEnd_map A body p hb, hend]
+    have hc : SegChain p (bodySegs p body) p := by
+      have := segChain_bodySegs body p hb
+      rwa [hend] at this
+    have ha1 : pathArea (PathEl.MoveTo p :: body) = some (areaSum (bodySegs p body)) := by
+      rw [pathArea_eq_areaSum, segs_eq_segsFrom, segsFrom_open_subpath none p body hb]; rfl
+    have hAa1 : pathArea ((PathEl.MoveTo p :: body).map (fun e : PathEl K => A * e))
+        = some (A.determinant * areaSum (bodySegs p body)) := by
+      rw [hm1, pathArea_eq_areaSum, segs_eq_segsFrom, segsFrom_open_subpath none _ _ (isBody_map A hb),
+        bodySegs_map A body p hb]
+      simp only [Option.map_some, Option.some.injEq]
+      rw [chain_areaSum_affine A hc, affCorr_self, add_zero]
+    refine ⟨?_, areaSum (bodySegs p body) + a, pathArea_append_some hrest.state_indep ha1 ha, ?_⟩
+    · rw [hm, hm1]; exact ClosedPath.implicit _ _ _ (isBody_map A hb) hend' hcl
+    · rw [hm, pathArea_append_some hcl.state_indep hAa1 hAa]; congr 1; ring
+
+/-- translation invariance for closed paths -/
+theorem area_translate_closedPath (v : Vec2 K) (els : List (PathEl K)) (h : ClosedPath els) :
+    pathArea (els.map (fun e : PathEl K => Affine.translate v * e)) = pathArea els := by
+  obtain ⟨a, ha, hA⟩ := area_affine_closedPath (Affine.translate v) els h
+  rw [hA, ha, determinant_translate, one_mul]
+
+/-! ### reversal at element level (`reverse_subpaths`) for a single sub-path -/
+
+/-- one explicitly closed sub-path: `reverse_subpaths` does not panic; the reversed path draws the reversed body
+    chain followed by the reversed closing line (a rotation of the reversed closed chain) -/
+theorem segs_reverse_closed (p : Point K) (body : List (PathEl K)) (hb : IsBody body) :
+    ∃ r : List (PathEl K), reverseSubpaths (.MoveTo p :: body ++ [PathEl.ClosePath]) = some r ∧
+      segs r = some ((bodySegs p body).reverse.map PathSeg.reverse
+        ++ (if bodyEnd p body = p then [] else [PathSeg.Line ⟨bodyEnd p body, p⟩]).map PathSeg.reverse) := by
+  refine ⟨_, reverseSubpaths_closed_subpath p body hb, ?_⟩
+  rw [segs_eq_segsFrom, segsFrom_reverse_closed none p body hb, closeSegs_swap, closeSegs_eq_ite]
+
+/-- … and its area is negated -/
+theorem area_reverse_closed (p : Point K) (body : List (PathEl K)) (hb : IsBody body) :
+    ∃ (r : List (PathEl K)) (a : K), reverseSubpaths (.MoveTo p :: body ++ [PathEl.ClosePath]) = some r ∧
+      pathArea (.MoveTo p :: body ++ [PathEl.ClosePath]) = some a ∧ pathArea r = some (-a) := by
+  refine ⟨_, areaSum (bodySegs p body ++ closeSegs (bodyEnd p body) p),
+    reverseSubpaths_closed_subpath p body hb, ?_, ?_⟩
+  · rw [pathArea_eq_areaSum, segs_eq_segsFrom, segsFrom_closed_subpath none p body hb]; rfl
+  · rw [pathArea_eq_areaSum, segs_eq_segsFrom, segsFrom_reverse_closed none p body hb, closeSegs_swap]
+    simp only [Option.map_some, Option.some.injEq]
+    have h1 := areaSum_reverse (bodySegs p body) signedArea_reverse
+    have h2 := areaSum_reverse (closeSegs (bodyEnd p body) p) signedArea_reverse
+    have h3 : (closeSegs (bodyEnd p body) p).reverse = closeSegs (bodyEnd p body) p := by
+      unfold closeSegs; split_ifs <;> rfl
+    rw [h3] at h2
+    rw [areaSum_append, areaSum_append, h1, h2]; ring
+
+/-- a single sub-path without `ClosePath` (open or not): the reversed path draws the reversed chain, area negated -/
+theorem area_reverse_open (p : Point K) (body : List (PathEl K)) (hb : IsBody body) :
+    ∃ (r : List (PathEl K)) (a : K), reverseSubpaths (.MoveTo p :: body) = some r ∧
+      segs (.MoveTo p :: body) = some (bodySegs p body) ∧
+      segs r = some ((bodySegs p body).reverse.map PathSeg.reverse) ∧
+      pathArea (.MoveTo p :: body) = some a ∧ pathArea r = some (-a) := by
+  refine ⟨_, areaSum (bodySegs p body), reverseSubpaths_open_subpath p body hb, ?_, ?_, ?_, ?_⟩
+  · rw [segs_eq_segsFrom, segsFrom_open_subpath none p body hb]
+  · rw [segs_eq_segsFrom, segsFrom_reverse_open none p body hb]
+  · rw [pathArea_eq_areaSum, segs_eq_segsFrom, segsFrom_open_subpath none p body hb]; rfl
+  · rw [pathArea_eq_areaSum, segs_eq_segsFrom, segsFrom_reverse_open none p body hb]
+    simp only [Option.map_some, Option.some.injEq]
+    exact areaSum_reverse (bodySegs p body) signedArea_reverse
+
+/-! ### orientation: positive for contours that turn from +x towards +y -/
+
+/-- the area of the triangle path `a → b → c → (close)` is half the cross product `(b−a)×(c−a)` -/
+theorem triangle_area (a b c : Point K) :
+    pathArea [.MoveTo a, .LineTo b, .LineTo c, .ClosePath]
+      = some (((b.x - a.x) * (c.y - a.y) - (b.y - a.y) * (c.x - a.x)) / 2) := by
+  have hb : IsBody [PathEl.LineTo b, PathEl.LineTo c] := by
+    intro e he
+    simp only [List.mem_cons, List.not_mem_nil, or_false] at he
+    rcases he with rfl | rfl <;> trivial
+  have h : segs [PathEl.MoveTo a, .LineTo b, .LineTo c, .ClosePath]
+      = some ([PathSeg.Line ⟨a, b⟩, PathSeg.Line ⟨b, c⟩] ++ (if c = a then [] else [PathSeg.Line ⟨c, a⟩])) :=
+    (segs_closed_subpath a [PathEl.LineTo b, PathEl.LineTo c] hb).1
+  rw [pathArea_eq_areaSum, h]
+  simp only [Option.map_some, Option.some.injEq]
+  by_cases hca : c = a
+  · rw [if_pos hca]; subst hca
+    simp only [areaSum, List.map_cons, List.map_nil, List.sum_cons, List.sum_nil, List.append_nil,
+      PathSeg.signed_area, kdefs, scalar_norm]
+    push_cast; ring
+  · rw [if_neg hca]
+    simp only [areaSum, List.map_cons, List.map_nil, List.sum_cons, List.sum_nil, List.cons_append,
+      List.nil_append, PathSeg.signed_area, kdefs, scalar_norm]
+    push_cast; ring
+
+/-- in particular a counter-clockwise triangle (turning from +x towards +y) has positive area -/
+theorem triangle_area_pos (a b c : Point K)
+    (h : 0 < (b.x - a.x) * (c.y - a.y) - (b.y - a.y) * (c.x - a.x)) :
+    ∃ ar : K, pathArea [.MoveTo a, .LineTo b, .LineTo c, .ClosePath] = some ar ∧ 0 < ar :=
+  ⟨_, triangle_area a b c, by positivity⟩
+
+end Kurbo
+
+/-! ## Non-vacuity: concrete instances over `Rat` (the scalar the driver executes) -/
+namespace Kurbo
+namespace C02Examples
+open PathEl
+
+-- example data `sq` (unit square), `blob` (quadratic + cubic, closed implicitly), `cb`, `aff` (det 7), `proj`
+-- (singular) are defined in `Proofs/Lemmas/C02.lean`
+example : pathArea sq = some 1 := by decide +kernel
+example : pathArea [MoveTo (⟨0, 0⟩ : Point Rat), LineTo ⟨0, 1⟩, LineTo ⟨1, 1⟩, LineTo ⟨1, 0⟩, ClosePath] = some (-1) := by
+  decide +kernel
+example : pathArea blob = some (28 / 15) := by decide +kernel
+-- additivity over sub-paths (hypotheses of `area_append_some`)
+example : segs sq ≠ none ∧ segs blob ≠ none ∧ pathArea (sq ++ blob) = some (1 + 28 / 15) := by decide +kernel
+-- `ClosedPath`, `IsBody` are inhabited by non-trivial paths (one sub-path of each kind)
+example : IsBody [LineTo (⟨1, 0⟩ : Point Rat), QuadTo ⟨3, 1⟩ ⟨2, 2⟩, CurveTo ⟨1, 2⟩ ⟨1, 0⟩ ⟨2, 0⟩] := by decide
+example : ClosedPath (sq ++ blob) :=
+  ClosedPath.close ⟨0, 0⟩ [LineTo ⟨1, 0⟩, LineTo ⟨1, 1⟩, LineTo ⟨0, 1⟩] blob (by decide)
+    (ClosedPath.implicit ⟨2, 0⟩ [QuadTo ⟨3, 1⟩ ⟨2, 2⟩, CurveTo ⟨1, 2⟩ ⟨1, 0⟩ ⟨2, 0⟩] [] (by decide) rfl ClosedPath.nil)
+-- determinant law on it: det = 7
+example : aff.determinant = 7 ∧
+    pathArea ((sq ++ blob).map (fun e : PathEl Rat => aff * e)) = some (7 * (1 + 28 / 15)) := by decide +kernel
+-- singular map: the closing line of the square collapses to a point in the image, the law still holds
+example : proj.determinant = 0 ∧ pathArea (sq.map (fun e : PathEl Rat => proj * e)) = some 0 := by decide +kernel
+-- a closed chain of three different kinds of segments
+example : SegChain (⟨0, 0⟩ : Point Rat)
+    [.Line ⟨⟨0, 0⟩, ⟨1, 0⟩⟩, .Quad ⟨⟨1, 0⟩, ⟨2, 1⟩, ⟨1, 1⟩⟩, .Cubic ⟨⟨1, 1⟩, ⟨1, 2⟩, ⟨0, 2⟩, ⟨0, 0⟩⟩] ⟨0, 0⟩ :=
+  ⟨rfl, rfl, rfl, rfl⟩
+-- a single segment that is a loop (`signedArea_affine_loop`), and a map without translation (`signedArea_linear`)
+example : (PathSeg.Cubic ⟨(⟨0, 0⟩ : Point Rat), ⟨3, 0⟩, ⟨0, 3⟩, ⟨0, 0⟩⟩).end
+    = (PathSeg.Cubic ⟨(⟨0, 0⟩ : Point Rat), ⟨3, 0⟩, ⟨0, 3⟩, ⟨0, 0⟩⟩).start := rfl
+example : (⟨2, 1, -1, 3, 0, 0⟩ : Affine Rat).c4 = 0 ∧ (⟨2, 1, -1, 3, 0, 0⟩ : Affine Rat).c5 = 0 := ⟨rfl, rfl⟩
+-- counter-clockwise triangle (`triangle_area_pos`)
+example : (0 : Rat) < ((1 : Rat) - 0) * (1 - 0) - (0 - 0) * (0 - 0) := by norm_num
+-- values: a cubic, its two parts at t = 1/3, a part with reversed / outside range
+example : cb.signed_area = 3 / 5 := by decide +kernel
+example : (cb.subsegment ⟨0, 1 / 3⟩).signed_area = 16 / 405 ∧ (cb.subsegment ⟨1 / 3, 1⟩).signed_area = 227 / 405 ∧
+    (16 / 405 + 227 / 405 : Rat) = 3 / 5 := by decide +kernel
+example : (cb.subsegment ⟨2, 1⟩).signed_area = -33 / 5 := by decide +kernel
+-- the element-level reversal of the crate on the examples (the second one, with two sub-paths, is NOT covered by a
+-- theorem of this file, see header)
+example : (reverseSubpaths sq).bind pathArea = some (-1) := by decide +kernel
+example : (reverseSubpaths (sq ++ blob)).bind pathArea = some (-(1 + 28 / 15)) := by decide +kernel
+
+end C02Examples
 end Kurbo
